@@ -92,6 +92,9 @@ func c39ModeClass(c *c39Case) string {
 	if c.Mode == "unsharded" {
 		return "unsharded"
 	}
+	if c.Mode == "multi2" {
+		return "multi-result"
+	}
 	return "sharded"
 }
 
@@ -205,6 +208,9 @@ func c39Run(px *pxProxy, c *c39Case, res *verifkit.Result) c39Obs {
 		sql = "select v from tbl_ks"
 		subs = []int{0, 1, 2, 3}
 		stmts = map[int]int{0: 2, 1: 2}
+	case "multi2": // one unsharded statement answered with two result sets
+		sql = "select v from t_plain"
+		subs = []int{-1, -1}
 	default:
 		res.Dev("C39 harness bad-mode", "%s", c.Mode)
 		obs.Outcome = "harness"
@@ -219,7 +225,10 @@ func c39Run(px *pxProxy, c *c39Case, res *verifkit.Result) c39Obs {
 	for _, b := range px.backends {
 		sc := fbScript{Rows: 0, RowLen: c.RowLen, Sub: map[int]int{}}
 		for i, sub := range subs {
-			if sub < 0 {
+			if sub < 0 && c.Mode == "multi2" {
+				sc.Multi = append(sc.Multi, c.N[i])
+				produced[i] = c.N[i]
+			} else if sub < 0 {
 				sc.Rows = c.N[i]
 				produced[0] = c.N[i]
 			} else {
@@ -296,9 +305,20 @@ func c39Run(px *pxProxy, c *c39Case, res *verifkit.Result) c39Obs {
 			obs.Outcome = "harness"
 			return obs
 		}
-		r = cl.executeNoParams(id, onRow)
+		p := make([]byte, 9)
+		p[0], p[1], p[2], p[3] = byte(id), byte(id>>8), byte(id>>16), byte(id>>24)
+		p[5] = 1
+		if err := cl.command(0x17, p); err != nil {
+			r = pxResult{Kind: "closed", Detail: err.Error()}
+		} else {
+			r, _ = cl.readResults(onRow)
+		}
 	} else {
-		r = cl.query(sql, onRow)
+		if err := cl.command(0x03, []byte(sql)); err != nil {
+			r = pxResult{Kind: "closed", Detail: "write: " + err.Error()}
+		} else {
+			r, _ = cl.readResults(onRow)
+		}
 	}
 	obs.Rows = r.Rows
 	obs.Intact = bad == ""
@@ -336,7 +356,10 @@ func c39Run(px *pxProxy, c *c39Case, res *verifkit.Result) c39Obs {
 	for i, b := range px.backends {
 		_, qs := b.stats()
 		want := stmts[i]
-		if len(qs) != want && !(obs.Outcome == "error" && len(qs) < want) { // a failed statement ends its slice's work
+		if len(qs) > want {
+			res.Tag("surplus-statement") // a statement of an earlier case reached the backend late; the oracle judges the rows
+		}
+		if len(qs) < want && obs.Outcome != "error" { // (a failed statement ends its slice's work)
 			res.Dev("C39 harness routing", "backend %d saw %d statements %q, the case (%s) needs %d", i, len(qs), qs, c.Mode, want)
 		}
 	}
